@@ -29,7 +29,8 @@ RULE = ("full product key-file placement x method x plaintext x format x operati
 ASSUMPTIONS = ["mc/ref/aes.py and a hand-written XOR are the reference ciphers", "empty secrets are out of scope (they come back unset)",
                "file accesses are observed through CPython's 'open' audit event"]
 
-PLAINTEXTS = {"ascii7": "s3cr3t!", "nonascii": "päss-wörd-ÜÑ", "long40": "0123456789abcdefghijABCDEFGHIJ!@#$%^&*()"}
+PLAINTEXTS = {"ascii7": "s3cr3t!", "nonascii": "päss-wörd-ÜÑ", "long40": "0123456789abcdefghijABCDEFGHIJ!@#$%^&*()",
+              "padded": "  päss wörd with edges\t\n"}        # white space at either end is part of the secret
 NODES = ["root", "sub", "deep", "ct"]
 KEYS = {name: bytes((i * 31 + j * 7 + 11) % 256 for j in range(32)) for i, name in enumerate(["default", "root", "sub", "deep", "ct", "root2", "sub2"])}
 
@@ -156,7 +157,7 @@ def histories(depth):
 
 def bounds(tier):
     return {"placements": 16, "methods": ["aes", "xor", "best"],
-            "plaintexts": list(PLAINTEXTS) if tier == "thorough" else ["long40", "nonascii"],
+            "plaintexts": list(PLAINTEXTS) if tier == "thorough" else ["long40", "padded"],
             "formats": ["json", "yaml", "xml", "bson", "pickle"] if tier == "thorough" else ["json", "xml"],
             "history_depth": 3 if tier == "thorough" else 2, "histories": len(histories(3 if tier == "thorough" else 2))}
 
@@ -379,6 +380,22 @@ def run_history(ctx, job, pname, hist):
         for pos, plain in model.secrets.items():
             if got.get(pos) != plain:
                 bad("reload-differs|%s" % _poskind(pos), "after reload %s reads %r" % (pos, got.get(pos)))
+        # (d) the rendered sub-trees handed to a new object as constructor keywords (only where every position resolves to
+        #     the root's key file or a config type's own one: sub-configurations cannot be given a key file that way)
+        if model.own["sub"] is None and model.own["deep"] is None and (model.own["ct"] is None or CTMODE[0] == "class") and not failed[0]:
+            parts = {k: tree[k] for k in ("sub", "t", "items", "ts") if tree.get(k) is not None}
+            try:
+                with core.audit_opens() as log3:
+                    sch3 = build(method, placement, tmp)
+                    built3 = cc.Config(sch3, key_filename=keypath(tmp, model.own["root"]), **parts) if model.own["root"] else sch3(**parts)
+            except Exception as exc:  # noqa
+                bad("ctor-raises|" + _blame(exc), "a new configuration given the rendered sub-trees as constructor keywords (and the same key file) raised: %s" % (exc,))
+                return
+            check_access(list(log3), designated, "constructor")
+            got3 = read_secrets(built3)
+            for pos, plain in model.secrets.items():
+                if pos != "s" and not pos.startswith("ls[") and got3.get(pos) != plain:
+                    bad("ctor-differs|%s" % _poskind(pos), "built from constructor keywords, %s reads %r" % (pos, got3.get(pos)))
 
     def _fresh_from_model(m):
         # a new configuration object whose key-file assignment is exactly the model's current one
